@@ -107,6 +107,71 @@ def run_many(ctx, gen, nrandom, tag, mid_cs=False):
         yield r
 
 
+def stage_serial_consumer(ctx, n):
+    """the main loop's own consumer (`update.serial_io`, used when there are no worker threads) over real Tasks that yield
+    and re-queue themselves: every get is answered by a task_done, so that when all tasks have finished the queue's sizes
+    are truthful again (0 queued, 0 in progress, no FIFO locked) and a join returns"""
+    import importlib
+    import alpenhorn.scheduler.queue as qmod
+    import alpenhorn.scheduler.task as tmod
+    import alpenhorn.daemon.update as upd
+    import env as envmod
+    rng = ctx.rng
+    with envmod.Env() as e:
+        for it in range(n):
+            importlib.reload(qmod)
+            vclock = [0.0]
+
+            def _mono():
+                vclock[0] += 1e-7
+                return vclock[0]
+            qmod.monotonic = _mono
+            qmod.sleep = lambda d: vclock.__setitem__(0, vclock[0] + max(d, 0))
+            class FastQ(qmod.FairMultiFIFOQueue):
+                def get(self, timeout=None):          # serial_io asks for get(timeout=1): no real waiting here
+                    if self.qsize == 0:
+                        if not self.deferred_size:
+                            return None
+                        vclock[0] += 5                # the deferred puts become due while the loop waits
+                    return super().get(timeout=0.0005)
+            q = FastQ()
+            steps = {}
+            specs = []
+            for tid in range(rng.randint(1, 4)):
+                nyield = rng.choice([0, 0, 1, 2, 3])
+                excl = rng.random() < 0.3
+                key = rng.choice(["a", "b"])
+                specs.append((tid, nyield, excl, key))
+
+                def body(task, _tid=tid, _n=nyield):
+                    for k in range(_n):
+                        steps[_tid] = steps.get(_tid, 0) + 1
+                        yield rng.choice([0, 1, 3])
+                    steps[_tid] = steps.get(_tid, 0) + 1
+
+                def plain(task, _tid=tid):
+                    steps[_tid] = steps.get(_tid, 0) + 1
+                tmod.Task(func=body if nyield else plain, queue=q, key=key, exclusive=excl, name=f"T{tid}")
+            passes = 0
+            while (q.qsize or q.deferred_size) and passes < 30:
+                upd.serial_io(q)
+                passes += 1
+                vclock[0] += 5          # time passes between main-loop iterations: deferred puts become due
+            left = dict(qsize=q.qsize, inprogress=q.inprogress_size, deferred=q.deferred_size, locked=sorted(q._fifo_locks),
+                        fifo={k: q.fifo_size(k) for k in ("a", "b")})
+            ctx.count(f"serial:tasks={len(specs)}:yields={min(sum(s[1] for s in specs), 3)}")
+            ctx.case(("serial", tuple(specs)), nontrivial=any(s[1] for s in specs),
+                     sample={"tasks(id,yields,exclusive,key)": specs, "passes": passes, "left": left} if it < 2 else None)
+            want = {tid: ny + 1 for tid, ny, _, _ in specs}
+            if steps != want:
+                ctx.violation("serial:steps", f"tasks {specs} run by serial_io executed steps {steps}, expected {want}",
+                              {"kind": "serial", "tasks": specs})
+            if left["qsize"] or left["inprogress"] or left["deferred"] or left["locked"] or any(left["fifo"].values()):
+                ctx.violation("serial:leftover", f"all tasks finished under serial_io but the queue reports {left} "
+                              f"(a get without its task_done; join would never return)", {"kind": "serial", "tasks": specs, "left": left})
+    importlib.reload(qmod)
+
+
 def run(ctx):
     ok = common.proof_stage(ctx, MODULE)
     n = 1500 if ctx.quick() else 40000
@@ -123,6 +188,7 @@ def run(ctx):
         for p in probs:
             ctx.violation("queue:" + p.split("(")[0][:40].replace(" ", "_"), p,
                           {"kind": "qschedule", "mid_cs": True, "programs": r["progs"], "keys": r["keys"], "schedule": r["taken"], "problem": p})
+    stage_serial_consumer(ctx, 150 if ctx.quick() else 4000)
     ctx.coverage["rule"] = ("2-4 threads (producers with immediate/deferred puts, consumers with timed gets and task_done, joiners, size "
                             "queries, task_done on foreign keys) over 1-3 FIFO keys on the real queue with threading/monotonic/sleep "
                             "replaced by the cooperative shim; corpus under 40 seeded schedules each, then random programs and schedules; "
